@@ -12,3 +12,13 @@ func roundTripLemma(doc *Document) (*Document, error) {
 	}
 	return NewDocumentFromCbor(blob)
 }
+
+// roundTripLemmaEx: the same composition for a document exported together with its session evidence.
+func roundTripLemmaEx(docEx *DocumentEx) (*Document, error) {
+	blob, err := docEx.ToCbor()
+	if err != nil {
+		return nil, err
+	}
+	doc, _, err := UnmarshalVerifiableDoc(blob)
+	return doc, err
+}
